@@ -55,6 +55,21 @@ let parse_exts (s : string) : (n * byte list) list =
   List.map (fun e -> match String.split_on_char ':' e with
       | [o; h] -> (cn_of_string o, bytes_of_hex h) | _ -> failwith "ext") (String.split_on_char ',' s)
 
+(* array-backed equivalent of Base.Prog.input_of_exts, used only when the dense extents are large: the extracted definition looks a
+   byte up with List.nth, which makes reading a dense extent of n bytes cost n^2 (44 s for 70 KB).  Same first-match semantics
+   (extents in order, zero background).  Small inputs keep the extracted definition, so both are exercised by every run. *)
+let fast_input_of_exts (len : n) (exts : (n * byte list) list) : input =
+  let dense = List.fold_left (fun a (_, l) -> a + List.length l) 0 exts in
+  if dense <= 8192 then input_of_exts len exts else
+  let es = List.map (fun (o, l) -> let a = Array.of_list l in let zo = z_of_cn o in
+                      (zo, BZ.add zo (BZ.of_int (Array.length a)), a)) exts in
+  { ilen = len;
+    iget = (fun off -> let z = z_of_cn off in
+             let rec go = function
+               | [] -> byte_tab.(0)
+               | (o, e, a) :: r -> if BZ.leq o z && BZ.lt z e then a.(BZ.to_int (BZ.sub z o)) else go r in
+             go es) }
+
 let parse_cfg mx cum =
   { max_metadata_size = cn_of_string mx;
     cumulative_mdat_box_size = (if cum = "-" then None else Some (cn_of_string cum)) }
@@ -70,7 +85,7 @@ let run_mp4 args = match args with
   | [rd; mx; cum; len; exts] ->
     let exts = parse_exts exts in
     let total = List.fold_left (fun a (_, l) -> a + List.length l) 0 exts in
-    let inp = input_of_exts (cn_of_string len) exts in
+    let inp = fast_input_of_exts (cn_of_string len) exts in
     let (lenient, maxseek) = reader_params rd in
     show_out (mp4_sanitize (parse_cfg mx cum) lenient maxseek inp (nat_of_int (total / 8 + 4)))
   | _ -> "bad-args"
@@ -89,7 +104,7 @@ let run_spec args = match args with
   | [_rd; mx; cum; len; exts] ->
     let exts = parse_exts exts in
     let total = List.fold_left (fun a (_, l) -> a + List.length l) 0 exts in
-    let inp = input_of_exts (cn_of_string len) exts in
+    let inp = fast_input_of_exts (cn_of_string len) exts in
     let cumo = (if cum = "-" then None else Some (cn_of_string cum)) in
     let cfg = { c_max = cn_of_string mx; c_cum = cumo } in
     (match tile (nat_of_int (total / 8 + 4)) cumo inp N0 with
@@ -113,7 +128,9 @@ let run_specmd args = match args with
     (match String.split_on_char 'z' md with
      | [h; z] ->
        let bytes = bytes_of_hex (if h = "" then "-" else h) in
-       let inp = md_input bytes (cn_of_string z) in
+       (* Spec.md_input md z = input_of_exts (|md| + z) [(0, md)] by definition *)
+       let inp = (if List.length bytes <= 8192 then md_input bytes (cn_of_string z)
+                  else fast_input_of_exts (cn_of_z (BZ.add (BZ.of_int (List.length bytes)) (z_of_cn (cn_of_string z)))) [(cn_of_string "0", bytes)]) in
        (match metadata_shape inp with
         | None -> "shape=none"
         | Some ((fp, mp), pad) ->
